@@ -224,6 +224,12 @@ where
         }
     }
 
+    /// Verification hook: capacities of the traversal stack and of the input list.
+    #[cfg(rustaudio_dasp_verif)]
+    pub fn verif_capacities(&self) -> (usize, usize) {
+        (self.dfs_post_order.stack.capacity(), self.inputs.capacity())
+    }
+
     /// Process audio through the subgraph ending at the node with the given ID.
     ///
     /// Specifically, this traverses nodes in depth-first-search *post* order where the edges of
